@@ -334,7 +334,7 @@ def main():
     run.bounds = {'series_orders_(m,n)': sorted({(c['m'], c['n']) for c in cf}), 'configurations': len(cf)}
     run.assume('w = 0 on the upstream and downstream edges (flags w1t*, w2t* of the flow direction set to 0), all other flags symbolic',
                'integral tables = exact Bardell integrals (C10), interpreted exactly here', 'Mach > 1, q = sqrt(Mach^2-1) > 0, r > 0')
-    run.outside = ['StiffPanelBay.calc_kA (claimed with C13 when built)', 'conical panels (calc_kA raises NotImplementedError)', 'orders above the bound']
+    run.outside = ['curved / stiffened bays beyond the flat-skin bay variants', 'conical panels (calc_kA raises NotImplementedError)', 'orders above the bound']
     res = pmap(kprop.job, [(__name__, c) for c in cf])
     res = kprop.explore_loci(__name__, res, run)      # second pass: the equality loci the executed code branched on
     kprop.handle(run, res, build, 'aerodynamic matrix entries differ from the piston-theory bilinear form')
